@@ -13,7 +13,7 @@ from vlib.engine import Engine, EngineUnknown, Infeasible
 
 LEVEL = 'exploration'
 ASSUME = [
-    'graphs: N <= 3 over all kinds and N = 4 over {input, AND2, fork, DFF} (quick) / N <= 4 over all kinds (thorough; 5 nodes are out of reach: > 10^9 graphs); kinds from {input, AND2 (2 pins), INV1, fork, DFF (2 pins, up to 2 outputs), LATCH, output}; every input pin is unconnected or driven by any node; '
+    'graphs: N <= 3 over all kinds and N = 4 over {input, AND2, fork, DFF} (quick) / N <= 4 over all kinds (thorough; 5 nodes are out of reach: > 10^9 graphs); kinds from {input, AND2 (2 pins), INV1, fork, DFF (2 pins, up to 2 outputs), LATCH, output}; every input pin is unconnected or driven by any node; plus N <= 3 over {input, HA2 (two-output combinational cell), DFF, output, INV1} where two-output nodes choose output pin 0 or 1 freely (open lower output pins); '
     'cells drive one line per output pin, forks any number; combinational loops are excluded (the statement speaks of orders of combinational logic cut at state elements)',
     'plus the corpus G2/G3 circuits (bench, verilog and lean styles) with the same assertions',
     'name lookups: naming schemes enumerated (bracket / underscore / plain digit suffix, gaps, two-dimensional, colliding prefixes), index values symbolic integers in [0, 12] with distinctness constraints, order of the nodes in io_nodes permuted',
@@ -21,8 +21,9 @@ ASSUME = [
 ]
 
 KINDS = ['input', 'AND2', 'INV1', '__fork__', 'DFF', 'output', 'LATCH']
-NPINS = {'input': 0, 'AND2': 2, 'INV1': 1, '__fork__': 1, 'DFF': 2, 'output': 1, 'LATCH': 2}
-MAXOUT = {'input': 1, 'AND2': 1, 'INV1': 1, '__fork__': 99, 'DFF': 2, 'output': 0, 'LATCH': 1}
+NPINS = {'input': 0, 'AND2': 2, 'INV1': 1, '__fork__': 1, 'DFF': 2, 'output': 1, 'LATCH': 2, 'HA2': 2}
+MAXOUT = {'input': 1, 'AND2': 1, 'INV1': 1, '__fork__': 99, 'DFF': 2, 'output': 0, 'LATCH': 1, 'HA2': 2}
+KGAP = ['input', 'HA2', 'DFF', 'output', 'INV1']      # graphs whose two-output nodes (combinational HA2, DFF) may leave output pin 0 open and use pin 1 (seed C17-r7mut1)
 
 
 def is_src(n):
@@ -140,6 +141,29 @@ def build_graph(eng, N, kset=None):
     return c, kinds, desc
 
 
+def build_graph_gap(eng, N):
+    kinds = [KGAP[eng.choose(len(KGAP))] for _ in range(N)]
+    c = Circuit('g')
+    nodes = [Node(c, f'n{i}', k) for i, k in enumerate(kinds)]
+    desc = []
+    for i, n in enumerate(nodes):
+        for p in range(NPINS[n.kind]):
+            ch = eng.choose(N + 1)
+            if ch == N: desc.append(None); continue
+            d = nodes[ch]
+            if MAXOUT[d.kind] == 0: raise Infeasible()
+            if MAXOUT[d.kind] == 2:
+                op = eng.choose(2)                      # explicit output pin: 0 or 1, must be free
+                if op < len(d.outs) and d.outs[op] is not None: raise Infeasible()
+            else:
+                op = 0
+                if len(d.outs) > 0 and d.outs[0] is not None: raise Infeasible()
+            Line(c, (d, op), (n, p))
+            desc.append([ch, op])
+    if has_comb_loop(c): raise Infeasible()
+    return c, kinds, desc
+
+
 def graph_job(job):
     prefix, N, kset = job
     rep = common.Report()
@@ -147,7 +171,7 @@ def graph_job(job):
     found = []
 
     def fn(eng):
-        c, kinds, desc = build_graph(eng, N, kset)
+        c, kinds, desc = build_graph_gap(eng, N) if kset == 'gap' else build_graph(eng, N, kset)
         rep.counts['graphs'] += 1
         try:
             p = check_traversals(c)
@@ -180,6 +204,7 @@ def replay_graph(data):
         for p in range(NPINS[n.kind]):
             ch = next(it)
             if ch is None: continue
+            if isinstance(ch, list): Line(c, (nodes[ch[0]], ch[1]), (n, p)); continue
             d = nodes[ch]
             Line(c, (d, d.outs.free_index()), (n, p))
     try: p = check_traversals(c)
@@ -296,6 +321,8 @@ def run(tier, seed):
             for pre in itertools.product(range(len(K4)), repeat=3): J.append(('graph', (list(pre), n, K4)))
         else:                                     # 3 nodes (both tiers) and 4 nodes (thorough) over all kinds, split by the kinds of the first two nodes
             for pre in itertools.product(range(len(KINDS)), repeat=2): J.append(('graph', (list(pre), n, None)))
+    for n in (2, 3):
+        for pre in range(len(KGAP)): J.append(('graph', ([pre], n, 'gap')))
     for nl in netlist.g2_shapes() + netlist.g3_random(seed, 20 if tier == 'quick' else 1500) + netlist.g1_primitives()[::5]:
         for style in ('bench', 'verilog', 'lean', 'vbf'): J.append(('corpus', ('nl', nl.to_json(), style)))
     for r in netlist.G4: J.append(('corpus', r))
